@@ -1033,9 +1033,9 @@ class Printer:
         if o == 'divs':
             return ('((%s)⁻¹ • %s)' % (x[1], x[0])) if R else (('(XF.vDivS %s %s)' if isv else '(XF.matDivS %s %s)') % (x[0], x[1]))
         if o == 'row':
-            return '(%s %d)' % (x[0], a.args[1])
+            return ('(%s %d)' if R else '(XF.mrow %s %d)') % (x[0], a.args[1])
         if o == 'col':
-            return '(fun i_ => %s i_ %d)' % (x[0], a.args[1])
+            return ('(fun i_ => %s i_ %d)' if R else '(XF.mcol %s %d)') % (x[0], a.args[1])
         raise TracerError('print array %s' % o)
 
     # ---- conditions
